@@ -154,7 +154,9 @@ def ord_names(atoms, pred):
 
 
 def bool_fn_paths(body):
-    """[(atoms, returned term)] for the consistent loop-free paths of a bool-returning body"""
+    """[(atoms, returned term, blocks, end)] for the consistent loop-free paths of a value-returning body; a returned if-then-else term
+    (a value computed by an Option combinator, a `match` used as an expression, an inlined closure) is split into its cases, each
+    with the literals of its branch added to the path condition"""
     from .dd_rules import _path_ret
     out = []
     for (edges, blocks, end) in M.enumerate_paths(body, (0, 0)):
@@ -165,7 +167,11 @@ def bool_fn_paths(body):
         if rt is None:
             rets = body.return_blocks()
             rt = body.origin.place({'l': 0, 'p': []}, body.term_point(rets[0])) if rets else None
-        out.append((atoms, rt, blocks, end))
+        for (conds, leaf) in M.cases(rt):
+            extra = [a for c in conds for a in M.lit_atoms(c)]
+            if conds and not M.consistent(list(atoms) + extra):
+                continue
+            out.append((list(atoms) + extra, leaf, blocks, end))
     return out
 
 
@@ -255,3 +261,38 @@ def empty_lit(atom, pred, empty=True):
                 if (not empty) and rel and rel <= frozenset('>='):
                     return True
     return False
+
+
+# Option-valued terms in normal form (Origin.call rewrites unwrap_or / unwrap_or_else / map_or / map to the ite the equivalent
+# `match` produces, so one matcher covers every spelling)
+def opt_fold(t):
+    """(o, value when o is Some, value when o is None) if t = ite(o is Some ? a : b), else None"""
+    if isinstance(t, tuple) and t and t[0] == 'ite' and t[1] and t[1][0] == 'in' and t[1][2] == M.SOME:
+        return (t[1][1], t[2], t[3])
+    return None
+
+
+def opt_payload(o):
+    return M.simplify_field(M.simplify_variant(o, 'Some'), '0', None)
+
+
+def opt_or(t, opt_pred, default_pred):
+    """t = o.unwrap_or(d) (any spelling) with opt_pred(o) and default_pred(d)"""
+    f = opt_fold(t)
+    return f is not None and f[1] == opt_payload(f[0]) and opt_pred(f[0]) and default_pred(f[2])
+
+
+def opt_map(t):
+    """(o, mapped payload term) if t = o.map(f) (any spelling): ite(o is Some ? Some(r) : None)"""
+    f = opt_fold(t)
+    if f is not None and isinstance(f[1], tuple) and f[1][:3] == ('aggr', M.OPTION, 'Some') and f[2] == M.MK_NONE:
+        return (f[0], f[1][3][0][1])
+    return None
+
+
+def is_max_const(t):
+    return M.is_const(t) and (t[2] or '').endswith('MAX')
+
+
+def is_min_const(t):
+    return M.is_const(t) and (t[2] or '').endswith('MIN')
